@@ -19,7 +19,11 @@ import (
 // them, WriteChunkWithIndexes for the chunk and its message indexes, the exported Statistics
 // counters for the messages it did not see - and everything else through the ordinary calls.
 
-func passthrough(b []byte, cfg gow.Config) (out []byte, what string) {
+func passthrough(b []byte, cfg gow.Config) (out []byte, what string) { return passthroughOpt(b, cfg, true) }
+
+// passthroughOpt with register=false copies chunks verbatim without telling the writer about the
+// schemas and channels inside them (a tool that does not look into chunks).
+func passthroughOpt(b []byte, cfg gow.Config, register bool) (out []byte, what string) {
 	defer func() {
 		if p := recover(); p != nil {
 			out, what = nil, "panic: "+gow.PanicSite(p)
@@ -43,7 +47,7 @@ func passthrough(b []byte, cfg gow.Config) (out []byte, what string) {
 		if err != nil {
 			return fmt.Errorf("decompress: %w", err)
 		}
-		for off := 0; off+9 <= len(inner); {
+		for off := 0; register && off+9 <= len(inner); {
 			op := inner[off]
 			n := int(uint64(inner[off+1]) | uint64(inner[off+2])<<8 | uint64(inner[off+3])<<16 | uint64(inner[off+4])<<24)
 			body := inner[off+9 : off+9+n]
